@@ -138,6 +138,7 @@ def get_item(I, cont, key):
         k = I.kind(cont)
         if k == K_DICT:
             dom, val, _ = dict_parts(I, cont)
+            st.dict_read(cont, key)
             if not st.decide(z3.Select(dom, key), "key-in-dict"):
                 I.raise_(KeyError, key, origin=("getitem",))
             return st.wf_read(z3.Select(val, key))
@@ -887,11 +888,20 @@ def _symbolic_comp(I, e, env, inner, kind, it):
     elif is_v(it) and I.tag(it) == "ref" and I.kind(it) in (K_DICT, K_SET):
         setlike_src = as_set_term(I, it)
     xb = fresh("cx")
-    if setlike_src is not None and isinstance(g.target, ast.Name) and kind != "dict":
+    items_of = None
+    if (isinstance(it, HView) and it.kind == "items" and isinstance(g.target, ast.Tuple) and len(g.target.elts) == 2
+            and all(isinstance(t_, ast.Name) for t_ in g.target.elts) and kind != "dict"):
+        items_of = it.base
+        setlike_src = as_set_term(I, it.base)
+    if setlike_src is not None and (isinstance(g.target, ast.Name) or items_of is not None) and kind != "dict":
         st.pc.append(z3.Select(setlike_src, xb))
         npc = len(st.pc)
         try:
-            inner.vars[g.target.id] = xb
+            if items_of is not None:
+                inner.vars[g.target.elts[0].id] = xb
+                inner.vars[g.target.elts[1].id] = z3.Select(z3.Select(st.h.dval, V.id(items_of)), xb)
+            else:
+                inner.vars[g.target.id] = xb
 
             def body():
                 c = z3.BoolVal(True)
@@ -1015,6 +1025,7 @@ def _dict_method(I, d, rid, name, args, kwargs):
     dom, val, ordseq = dict_parts(I, d)
     if name == "get":
         key = I.lift(args[0])
+        st.dict_read(d, key)
         default = I.lift(args[1]) if len(args) > 1 else I.lift(kwargs.get("default", None)) if kwargs else NONE
         return st.wf_read(z3.If(z3.Select(dom, key), z3.Select(val, key), default))
     if name == "keys":
@@ -1056,6 +1067,8 @@ def _dict_method(I, d, rid, name, args, kwargs):
         h.dord = z3.Store(h.dord, rid, EMPTY_ARR)
         I.spec.on_write(I, "dict", d, None)
         return NONE
+    if name not in METHODS[K_DICT]:
+        I.raise_(AttributeError, origin=("dict", name))
     raise OutsideSubset("dict." + name)
 
 
@@ -1115,6 +1128,8 @@ def _list_method(I, l, rid, name, args, kwargs):
         x = I.lift(args[1])
         st.set_list(l, Sq(z3.Lambda([i], z3.If(i < jj, sq.at(i), z3.If(i == jj, x, sq.at(i - 1)))), n + 1))
         return NONE
+    if name not in METHODS[K_LIST]:
+        I.raise_(AttributeError, origin=("list", name))
     raise OutsideSubset("list." + name)
 
 
@@ -1167,6 +1182,8 @@ def _set_method(I, s, rid, name, args, kwargs):
         od = as_set_term(I, args[0])
         k = z3.Const("k!sub", V)
         return vbool(z3.ForAll([k], z3.Implies(z3.Select(dom, k), z3.Select(od, k))))
+    if name not in METHODS[K_SET]:
+        I.raise_(AttributeError, origin=("set", name))
     raise OutsideSubset("set." + name)
 
 
@@ -1460,6 +1477,13 @@ def quantify_view(I, view, want_all):
         return z3.ForAll([i], z3.Implies(guard, body)) if want_all else z3.Exists([i], z3.And(guard, body))
     raise OutsideSubset(f"any/all over view {kind}")
 
+
+METHODS = {
+    K_DICT: {"get", "keys", "values", "items", "setdefault", "pop", "update", "copy", "clear", "popitem", "fromkeys"},
+    K_LIST: {"append", "extend", "copy", "pop", "sort", "insert", "index", "count", "remove", "reverse", "clear"},
+    K_SET: {"add", "update", "union", "intersection", "difference", "discard", "remove", "copy", "issubset", "issuperset",
+            "clear", "pop", "symmetric_difference", "isdisjoint"},
+}
 
 LOGGING_NOOPS = {"debug", "info", "warning", "error", "exception", "critical", "log"}
 
